@@ -16,9 +16,9 @@
   same graph (`call_graph_twice`, `rcall_graph_twice`).
 
   API scan: `C12.file_independent` (re-exported as `api_file_independent`).
-  Bad-smell and identifier listeners are not modelled as event machines: for those the regenerated
-  list of package variables that the constructor leaves alone is pinned (`bs_unreset`, `ident_unreset`)
-  and the relation itself is checked on the real code (multi-run oracle), not proved.
+  Identifier pass: Props/C01Ident.lean (`ident_file_independent`, `runFiles_eq`); `ident_unreset` pins the
+  regenerated fact it rests on.  The bad-smell listener is not modelled as an event machine: its clause is
+  exercised through C10's histories (stateless model against one process per shard), not proved.
 -/
 import CocaVerif.Model.JavaFull
 import CocaVerif.Model.Call
